@@ -89,9 +89,9 @@ feature_mapping_t base_pairwise_generator_t::make_pairwise(const feature_mapping
             const auto feature1 = mapping1(i1, 0);
             const auto feature2 = mapping2(i2, 0);
 
-            const auto key   = std::make_pair(std::min(feature1, feature2), std::max(feature1, feature2));
-            const auto value = (feature1 <= feature2) ? std::make_pair(i1, i2) : std::make_pair(i2, i1);
-            upairs.try_emplace(key, value);
+            // NB: the stored pair always indexes (mapping1, mapping2) as the two mappings can be different!
+            const auto key = std::make_pair(std::min(feature1, feature2), std::max(feature1, feature2));
+            upairs.try_emplace(key, std::make_pair(i1, i2));
         }
     }
 
